@@ -125,6 +125,58 @@ macro_rules! ef_c03 {
     };
 }
 
+macro_rules! ef_extend {
+    ($name:ident, $n:expr, $u:expr) => {
+        /// Mixed use of `push` and `extend`: the sequence is the concatenation,
+        /// and a batch whose first item is below the last value already in
+        /// the builder must be rejected.
+        pub mod $name {
+            use super::super::*;
+            const N: usize = $n;
+            const U: usize = $u;
+
+            #[kani::proof]
+            #[kani::unwind(8)]
+            #[kani::stub(f64::log2, log2_tab)]
+            pub fn push_then_extend() {
+                let x: [usize; N] = monotone::<N>(U);
+                let mut b = EliasFanoBuilder::new(N, U);
+                b.push(x[0]);
+                let mut k = 1;
+                while k < N {
+                    b.extend([x[k]]);
+                    k += 1;
+                }
+                let ef = wit(b.build());
+                let i: usize = kani::any();
+                kani::assume(i < N);
+                assert_eq!(ef.get(i), x[i]);
+                kani::cover!(x[0] > 0 && x[0] < x[N - 1]);
+                std::mem::forget(ef);
+            }
+
+            #[kani::proof]
+            #[kani::unwind(8)]
+            #[kani::should_panic]
+            #[kani::stub(f64::log2, log2_tab)]
+            pub fn reject_extend_out_of_order() {
+                let x: [usize; N] = monotone::<N>(U);
+                let mut b = EliasFanoBuilder::new(N, U);
+                let by_extend: bool = kani::any();
+                if by_extend {
+                    b.extend([x[0]]);
+                } else {
+                    b.push(x[0]);
+                }
+                let bad: usize = kani::any();
+                kani::assume(bad < x[0]);
+                b.extend([bad]);
+                kani::cover!(true, "returned normally");
+            }
+        }
+    };
+}
+
 macro_rules! ef_from {
     ($name:ident, $n:expr) => {
         /// `From<slice>`: the declared bound is the maximum; a non-monotone
@@ -172,7 +224,10 @@ macro_rules! ef_from {
 pub mod q {
     use crate::ef_grid_q;
     ef_grid_q!(ef_c03);
-    ef_from!(from3, 3);
+    ef_from!(from2, 2);
+    ef_extend!(extend_n3_u7, 3, 7);
+    ef_extend!(extend_n4_u10, 4, 10);
+    ef_extend!(extend_n2_u2p32, 2, 1 << 32);
     /// `From` on the empty slice.
     #[kani::proof]
     #[kani::unwind(4)]
